@@ -234,6 +234,73 @@ MUT["C11"] = [
 ]
 
 
+P_PM = "pybads/poll/poll_mads_2n.py"
+PMQ = "pybads.poll.poll_mads_2n.poll_mads_2n"
+MUT["C14"] = [
+    dict(id="c14-tril-diag", what="np.tril(D, 0) keeps the random diagonal", path=P_PM, functions=[PMQ], old="        D = np.tril(D, -1)", new="        D = np.tril(D, 0)", expect="diagonal_plus_minus_n_max"),
+    dict(id="c14-zero-diag", what="diagonal may be zero", path=P_PM, functions=[PMQ], old="    diag = n_max * 2 * (rnd.randint(1, 3, dim_x) - 1.5)", new="    diag = n_max * 2 * (rnd.randint(0, 3, dim_x) - 1.0)", expect="diagonal_plus_minus_n_max"),
+    dict(id="c14-same-sign", what="second half not negated", path=P_PM, functions=[PMQ], old="    B_new = np.vstack((D, -D))", new="    B_new = np.vstack((D, D))", expect="second_half_negated"),
+    dict(id="c14-no-unscale", what="poll scale not divided out", path=P_PM, functions=[PMQ], old="    D = D / poll_scale\n", new="    D = D * 1.0\n", expect="first_half_is_scaled_basis"),
+    dict(id="c14-upper", what="strictly upper part kept as well", path=P_PM, functions=[PMQ], old="        D = np.tril(D, -1)", new="        D = D - np.tril(D, 0) + np.tril(D, -1)", expect="lower_triangular"),
+    dict(id="c14-poll-3D", what="poll loop allows 3D evaluations", path=P_BADS, functions=[B + "._poll_step_"], old="            and poll_count < self.D * 2", new="            and poll_count < self.D * 3", expect="c14_at_most_2D"),
+]
+
+
+P_ES = "pybads/search/es_search.py"
+P_HEDGE = "pybads/search/search_hedge.py"
+ESQ = "pybads.search.es_search.ESSearch.__call__"
+HQ = "pybads.search.search_hedge.ESSearchHedge.__call__"
+MUT["C18"] = [
+    dict(id="c18-return-last", what="the worst kept candidate is proposed", path=P_ES, functions=[ESQ], old="        return us[0], z[0]", new="        return us[-1], z[-1]", expect="proposal_has_lowest_acquisition"),
+    dict(id="c18-sort-desc", what="candidates ordered by descending acquisition", path=P_ES, functions=[ESQ], old="            z_idx = np.argsort(z_candidates)", new="            z_idx = np.argsort(-z_candidates)", expect="c18_kept_sorted_prefix"),
+    dict(id="c18-clobber", what="fallback overwrites the accumulated acquisition values (the repaired defect)", path=P_ES, functions=[ESQ],
+         old="                z_new = np.random.rand(u_new.shape[0])", new="                z_candidates = np.random.rand(u_new.shape[0])", expect="c18_same_length"),
+    dict(id="c18-no-filter", what="second and later ES generations are not filtered", path=P_ES, functions=[ESQ],
+         old="            u_new = contraints_check(\n                u_new,", new="            u_new = u_new if i > 0 else contraints_check(\n                u_new,", expect="c18_candidates_in_box"),
+    dict(id="c18-z-of-other", what="acquisition values paired with the previous generation", path=P_ES, functions=[ESQ],
+         old="                us_candidates = np.append(\n                    us_candidates, u_new, axis=0\n                )", new="                us_candidates = np.append(\n                    u_new, us_candidates, axis=0\n                )", expect="c18_values_are_acquisition"),
+    dict(id="c18-hedge-floor", what="exploration floor mixed in with the wrong weight", path=P_HEDGE, functions=[HQ],
+         old="        self.prob = self.prob * (1 - self.n_funs * self.gamma) + self.gamma", new="        self.prob = self.prob * (1 - self.gamma) + self.gamma", expect="probabilities_sum_to_one"),
+    dict(id="c18-hedge-nonorm", what="softmax weights not normalised", path=P_HEDGE, functions=[HQ],
+         old="        self.prob = self.prob / np.sum(\n            np.exp(self.beta * (self.g - np.max(self.g)))\n        )", new="        self.prob = self.prob / np.max(\n            np.exp(self.beta * (self.g - np.max(self.g)))\n        )", expect="probabilities_sum_to_one"),
+    dict(id="c18-hedge-below-floor", what="floor subtracted instead of added", path=P_HEDGE, functions=[HQ],
+         old="        self.prob = self.prob * (1 - self.n_funs * self.gamma) + self.gamma", new="        self.prob = self.prob * (1 + self.n_funs * self.gamma) - self.gamma", expect="probabilities_at_least_floor"),
+    dict(id="c18-two-evals", what="search point evaluated twice", path=P_BADS, functions=[B + "._search_step_"],
+         old="            y_search, f_sd_search, idx = self.function_logger(u_search)", new="            y_search, f_sd_search, idx = self.function_logger(u_search)\n            y_search, f_sd_search, idx = self.function_logger(u_search)", expect="at_most_one_eval"),
+]
+
+
+P_GPT = "pybads/bads/gaussian_process_train.py"
+P_ACQ = "pybads/acquisition_functions/acq_fcn_lcb.py"
+GPTQ = "pybads.bads.gaussian_process_train."
+ACQQ = "pybads.acquisition_functions.acq_fcn_lcb.acq_fcn_lcb"
+MUT["C15"] = [
+    dict(id="c15-farthest", what="the farthest points are taken", path=P_GPT, functions=[GPTQ + "get_grid_search_neighbors"],
+         old="    return (U[sort_idx[0:ntrain]], Y[sort_idx[0:ntrain]], res_S)", new="    return (U[sort_idx[-ntrain:]], Y[sort_idx[-ntrain:]], res_S)", expect="ordered_by_distance"),
+    dict(id="c15-y-unsorted", what="values not permuted with the inputs", path=P_GPT, functions=[GPTQ + "get_grid_search_neighbors"],
+         old="    return (U[sort_idx[0:ntrain]], Y[sort_idx[0:ntrain]], res_S)", new="    return (U[sort_idx[0:ntrain]], Y[0:ntrain], res_S)", expect="training_pairs_are_logged_evaluations"),
+    dict(id="c15-sd-not-squared", what="supplied SD handed to the GP as a variance (the repaired defect)", path=P_GPT, functions=[GPTQ + "get_grid_search_neighbors"],
+         old="        res_S = function_logger.S[sort_idx[0:ntrain]] ** 2", new="        res_S = function_logger.S[sort_idx[0:ntrain]]", expect="training_pairs_are_logged_evaluations"),
+    dict(id="c15-cap-off-by-one", what="one logged point too few is allowed", path=P_GPT, functions=[GPTQ + "get_grid_search_neighbors"],
+         old="    ntrain = np.minimum(ntrain, function_logger.X_max_idx +1)", new="    ntrain = np.minimum(ntrain, function_logger.X_max_idx)", expect="size_respects_configured_minimum_and_maximum"),
+    dict(id="c15-min-ignored", what="configured minimum ignored", path=P_GPT, functions=[GPTQ + "get_grid_search_neighbors"],
+         old="            options[\"n_train_min\"],\n", new="            0,\n", expect="size_respects_configured_minimum_and_maximum"),
+    dict(id="c15-fevals-sd", what="initial training set uses SD instead of variance", path=P_GPT, functions=[GPTQ + "_get_fevals_data"],
+         old="        s2 = function_logger.S[function_logger.X_flag] ** 2", new="        s2 = function_logger.S[function_logger.X_flag]", expect="initial_training_pairs_are_logged_evaluations"),
+    dict(id="c15-add-sd", what="incremental add appends the SD (the repaired defect)", path=P_GPT, functions=[GPTQ + "add_and_update_gp"],
+         old="        gp.s2 = np.concatenate((gp.s2, np.atleast_2d(sd_new) ** 2))", new="        gp.s2 = np.concatenate((gp.s2, np.atleast_2d(sd_new)))", expect="supplied_noise_enters_as_variance"),
+    dict(id="c15-add-front", what="new pair prepended to the inputs only", path=P_GPT, functions=[GPTQ + "add_and_update_gp"],
+         old="    gp.X = np.concatenate((gp.X, np.atleast_2d(x_new)))", new="    gp.X = np.concatenate((np.atleast_2d(x_new), gp.X))", expect="add_and_update_gp"),
+    dict(id="c15-lcb-plus", what="upper instead of lower confidence bound", path=P_ACQ, functions=[ACQQ], old="    z = f_mu - sqrt_beta * f_s", new="    z = f_mu + sqrt_beta * f_s", expect="lcb_is_mean_minus_sqrt_beta_times_sd"),
+    dict(id="c15-t-off", what="t = func_count instead of func_count + 1", path=P_ACQ, functions=[ACQQ], old="    t = func_count + 1", new="    t = func_count", expect="lcb_is_mean_minus_sqrt_beta_times_sd"),
+    dict(id="c15-var-not-sd", what="variance used as standard deviation", path=P_ACQ, functions=[ACQQ], old="    f_s = np.sqrt(f_s2)", new="    f_s = f_s2", expect="mean_and_sd_are_the_gp_prediction"),
+]
+
+
+def scan_c14(index, registry):
+    return scans.lean_lemma(index, registry)
+
+
 def scan_c19(index, registry):
     return scans.deepcopy_on_store(index, registry)
 
@@ -347,6 +414,45 @@ PROPS = {
                     "plausible bounds map to -1/+1, g increasing (affine and log coordinates), ginv increasing (non-decreasing at the float cap), ginv(g(x)) == x for affine coordinates, "
                     "transformed hard bounds are never NaN, bounds ordered on normal return; the log flag is set exactly when all four bounds are positive and pub/plb >= 10 "
                     "(loop invariant over the NaN-flag indices); clamps of both directions. BOUNDED: rounding error < 1e-9 of the width and the log round trip (sampling).",
+    ),
+    "C14": dict(
+        level="proof",
+        native=[dict(name="pollgen-exhaustive", script="pollgen_enum.py", args_quick=["--dmax", 2], args_thorough=["--dmax", 3], timeout=1800), panel('C14', 8, 40)],
+        replay=replay('C14', 40),
+        functions=[PMQ, B + "._poll_step_"],
+        scans=[scan_c14],
+        mutants=MUT["C14"],
+        explanation="Structural obligations on the real poll_mads_2n (all random outcomes, all D, all n_max): n_max integer >= 1 (== 1 for the default mesh ratio), the matrix before permutation is lower "
+                    "triangular with diagonal +-n_max and strictly-lower entries in [1-n_max, n_max-1], the result is the transposed row permutation divided column-wise by poll_scale, stacked with its negation, "
+                    "shape 2D x D; Lean 4/Mathlib lemma: such a matrix is non-singular, column scaling keeps that, and {+-d_i} of a basis positively spans. In _poll_step_: at most 2D evaluations per poll. "
+                    "BOUNDED: exhaustive enumeration of the generator (D <= 3, ratios 1,2,4); panel: every polled point == incumbent + mesh * direction, each direction once.",
+    ),
+    "C18": dict(
+        level="proof",
+        native=[dict(name="es-search-bounded", script="es_model.py", args_quick=["--runs", 150, "--mask", 48], args_thorough=["--runs", 1500, "--mask", 300], timeout=1800),
+                panel('C18', 6, 30)],
+        replay=replay('C18', 30),
+        functions=[ESQ, HQ, B + "._search_step_"],
+        mutants=MUT["C18"],
+        explanation="ESSearch.__call__ (both strategies share it): loop invariant over the ES generations - accumulated candidates and acquisition values have equal length, every candidate "
+                    "is inside [lb_search, ub_search] (postcondition of the real candidate filter), z_candidates[k] is the acquisition value of us_candidates[k], and the kept prefix starts with a "
+                    "least element (argsort axioms); at the return: the proposal is one of the surviving candidates, carries its acquisition value, and no surviving candidate has a lower one. "
+                    "ESSearchHedge.__call__: probabilities sum to 1 and each is >= gamma (Sum as a linear functional, exp > 0). _search_step_: at most one target evaluation. "
+                    "Candidate generation (random draws, covariance, reproduction) is havoc - irrelevant to the clauses. BOUNDED: the rank-selection mask for every (mu, lambda) <= 48 / 300; "
+                    "random ES searches on the real classes with recorded candidate sets; panel monitor on full runs.",
+    ),
+    "C15": dict(
+        level="proof",
+        native=[dict(name="gp-training-set-bounded", script="gp_train_model.py", args_quick=["--runs", 150], args_thorough=["--runs", 2000], timeout=1800), panel('C15', 6, 30)],
+        replay=replay('C15', 30),
+        functions=[GPTQ + "get_grid_search_neighbors", GPTQ + "_get_fevals_data", GPTQ + "add_and_update_gp", ACQQ, FL + "._record"],
+        mutants=MUT["C15"],
+        explanation="get_grid_search_neighbors: every returned (input, value, variance) triple is a logged row (existential over log rows, points as values; variance == logged SD squared), "
+                    "rows are X[argsort(dist)[k]] in ascending distance, every unselected logged point is at least as far as every selected one (argsort inverse), size within "
+                    "[min(n, n_train_min), max(n_train_max, n_train_min)] and <= n. _get_fevals_data: the flagged rows with S squared. add_and_update_gp: appends exactly the pair handed in, "
+                    "noise as sd squared, earlier rows kept, same GP object returned. acq_fcn_lcb: mean - sqrt(0.2*2*log(D*(fc+1)^2*pi^2/(6*0.1))) * sqrt(s2) for the default schedule. "
+                    "The metric itself (udist) is named by a ghost vector (its value is outside the clauses); BOUNDED: recomputation of the metric and of all clauses on random logs; "
+                    "panel: every GP training set of full runs consists of logged pairs.",
     ),
     "C04": dict(
         level="proof",
